@@ -7,90 +7,7 @@
 open Model
 open Conv
 
-let ty_of_sexp = function
-  | Sexp.List [Sexp.Atom "bv"; w] -> TBV (num w)
-  | Sexp.List [Sexp.Atom "arr"; iw; dw] -> TArr (num iw, num dw)
-  | x -> raise (Sexp.Parse_error ("bad type " ^ Sexp.to_string x))
-
-let cmd_of_sexp = function
-  | Sexp.List [Sexp.Atom "decl"; n; t] -> DeclareConst (name n, ty_of_sexp t)
-  | Sexp.List [Sexp.Atom "def"; n; t; e] -> DefineFun (name n, ty_of_sexp t, expr_of_sexp e)
-  | x -> raise (Sexp.Parse_error ("bad command " ^ Sexp.to_string x))
-
-let show_ty = function
-  | TBV w -> Printf.sprintf "(bv %d)" (int_of_n w)
-  | TArr (iw, dw) -> Printf.sprintf "(arr %d %d)" (int_of_n iw) (int_of_n dw)
-
-let show_cmd = function
-  | DeclareConst (n, t) -> Printf.sprintf "(decl %s %s)" (ocamlstr n) (show_ty t)
-  | DefineFun (n, t, e) -> Printf.sprintf "(def %s %s %s)" (ocamlstr n) (show_ty t) (Sexp.to_string (sexp_of_expr e))
-
-let names_of_case fs : expr -> char list =
-  let tab = List.map (function
-      | Sexp.List [e; n] -> (expr_of_sexp e, name n)
-      | x -> raise (Sexp.Parse_error ("bad names entry " ^ Sexp.to_string x)))
-      (match Sexp.field_opt "names" fs with Some l -> l | None -> []) in
-  fun e -> match List.find_opt (fun (k, _) -> expr_eqb k e) tab with Some (_, n) -> n | None -> coqstr "?unnamed"
-
-let sys_of_case fs : sys =
-  sys_of_sexp (Sexp.List (Sexp.Atom "sys" :: Sexp.field "sys" fs))
-
-(* the step valuations of one (exec (step (bvenv ..) (arrenv ..)) ..) *)
-let steps_of_exec (x : Sexp.t) : env list =
-  match x with
-  | Sexp.List (Sexp.Atom "exec" :: steps) ->
-      List.map (function
-          | Sexp.List (Sexp.Atom "step" :: fs) ->
-              mk_env (parse_bvenv (Sexp.field "bvenv" fs)) (parse_arrenv (Sexp.field "arrenv" fs))
-          | s -> raise (Sexp.Parse_error ("bad step " ^ Sexp.to_string s))) steps
-  | _ -> raise (Sexp.Parse_error "bad exec")
-
-(* walk the script like Model.script_first_bad, but keep the context of the failure *)
-let rec first_bad (d : (char list * ty) list) (cs : cmd list) : ((char list * ty) list * cmd) option =
-  match cs with
-  | [] -> None
-  | c :: r -> if cmd_ok d c then first_bad ((cmd_name c, cmd_ty c) :: d) r else Some (d, c)
-
-let sym_leaf_name = function BVSymbol (n, _) -> Some n | ArraySymbol (n, _, _) -> Some n | _ -> None
-
-(* stable class of a strict-check failure *)
-let classify (sy : sys) (en : enc) (entry : int) (all : cmd list) (d : (char list * ty) list) (c : cmd) : string =
-  let nm = cmd_name c in
-  let at0 base = name_at base N0 in
-  if declared nm d then begin
-    let shared = List.exists (fun s ->
-        at0 s.sg_name = nm && pos s.sg_uses.u_init && pos s.sg_uses.u_next
-        && s.sg_uses.u_other = N0 && not s.sg_input) en.e_sigs in
-    if shared && entry = 0 then "dup-define:signal-shared-by-init-and-next-only" else "dup-define:other"
-  end else
-    match c with
-    | DeclareConst (_, _) -> "bad-declare"
-    | DefineFun (_, t, b) ->
-        if not (wt b) then "ill-sorted:body-not-well-typed"
-        else if not (ty_eqb (type_of b) t) then "ill-sorted:body-sort-differs-from-declared-sort"
-        else begin
-          (* first symbol of the body that is not available *)
-          let missing = List.find_opt (fun s ->
-              match s with
-              | BVSymbol (n, w) -> not (sym_ok d n (TBV w))
-              | ArraySymbol (n, iw, dw) -> not (sym_ok d n (TArr (iw, dw)))
-              | _ -> false) (symbols_of b) in
-          match missing with
-          | None -> "strict-check:unexplained"
-          | Some s ->
-              let sn = match sym_leaf_name s with Some n -> n | None -> [] in
-              let later = List.exists (fun c' -> cmd_name c' = sn) all in
-              let wrong_sort = declared sn d in
-              let state_syms k = List.map (fun st -> state_name_at st (n_of_int k)) sy.s_states in
-              let is_state_def = List.mem nm (state_syms entry) in
-              let is_sig_def = List.exists (fun s -> name_at s.sg_name (n_of_int entry) = nm) en.e_sigs in
-              if wrong_sort then "ill-sorted:symbol-used-at-another-sort"
-              else if not later then "use-of-undeclared-symbol"
-              else if entry = 0 && is_sig_def && List.mem sn (state_syms 0) then "use-before-declare:init-signal-reads-state"
-              else if entry = 0 && is_state_def && List.mem sn (state_syms 0) then "use-before-declare:init-reads-later-state"
-              else if entry > 0 && is_sig_def then "use-before-define:later-entry-signal-over-next-only-signal"
-              else "use-before-declare:other"
-        end
+open C00mc
 
 let sort_cmds (l : cmd list) = List.sort compare l
 
